@@ -160,6 +160,9 @@ func (c *refCtx) method(s *Expr, v any, unwrap bool, k emitFn, each func([]any) 
 	if arr, ok := v.([]any); ok && unwrap {
 		return each(arr)
 	}
+	if _, ok := v.(refID); ok {
+		c.decline("a method applied to a raw keyvalue id")
+	}
 	switch s.S {
 	case "double", "number":
 		f, err := c.numericInput(v)
@@ -232,6 +235,13 @@ func (c *refCtx) method(s *Expr, v any, unwrap bool, k emitFn, each func([]any) 
 		}
 		return soft(".string() can only be applied to a boolean, string, numeric, or datetime value")
 	case "abs", "floor", "ceiling":
+		if jn, isJN := v.(json.Number); isJN {
+			if _, e1 := jn.Int64(); e1 != nil {
+				if f, e2 := jn.Float64(); e2 != nil || math.IsInf(f, 0) {
+					return soft("number is outside the finite doubles") // an error rather than ±Inf
+				}
+			}
+		}
 		n, ok := c.asNum(v)
 		if !ok {
 			return soft("method can only be applied to a numeric value")
